@@ -35,18 +35,22 @@ EXPLANATION = ("f_opt / f_mem / f_dist are Lean theorems for point_to_triangle (
                "and searched all 34 functions for a strictly closer verified pair of points or a separating-plane "
                "certificate contradicting the returned distance")
 PARTIAL = {
-    "line_to_triangle_opt": "modelled (lineToTriangleFull, incl. plane_basis_from_normal, _line_to_line_segment and the "
-                            "edge loop) and tied by correspondence; optimality/feasibility theorems not proved (needs the "
-                            "edge-enumeration lemma: a line that misses the triangle is closest to one of its edges)",
-    "line_segment_to_triangle_opt": "modelled (lineSegmentToTriangle) and tied by correspondence; not proved (needs "
-                                    "line_to_triangle_opt + clamp_convex)",
-    "remaining 26 functions": "line/plane family is proved by the C10 vertical (D3/Model/DistLine.lean); polygon-pair "
-                              "enumerations (triangle_to_triangle, triangle_to_rectangle, rectangle_to_rectangle, "
-                              "rectangle_to_box, line/segment_to_rectangle, line/segment_to_box), the iterative ones "
-                              "(line_to_circle, line_segment_to_circle, disk_to_disk, point_to_ellipsoid) and "
-                              "plane_to_{ellipsoid,cylinder} are covered by the failing-input search only",
-    "point_to_circle_opt": "hypotheses exclude the function's own epsilon band 0 < |dip|^2 < epsilon (there the as-is code "
-                           "is not optimal: pointToCircle_asIs_counterexample) and pytransform3d's band 0 < |n.z| < 1e-7",
+    "line_to_triangle_opt": "not proved. Modelled faithfully (lineToTriangleFull incl. norm_vector, plane_basis_from_normal, "
+                            "_line_to_line_segment, the three-edge loop with MAX_FLOAT start) and tied by correspondence "
+                            "(lattice exact / general Float); missing: correctness of the plane-basis intersection test and "
+                            "the lemma 'a line that misses the triangle is closest to one of its edges'",
+    "line_segment_to_triangle_opt_partial": "conditional: proved from clamp_convex + point_to_triangle_opt under the "
+                                            "hypothesis that _line_to_triangle's result on the carrier line is feasible and "
+                                            "globally optimal (that hypothesis is line_to_triangle_opt, not proved; the "
+                                            "search checks it numerically on every run)",
+    "point_to_circle_opt": "hypotheses exclude the function's own epsilon band 0 < |dip|^2 < epsilon (inside it the as-is code "
+                           "is not optimal: pointToCircle_asIs_counterexample, known finding F-C11-circle-axis-band) and "
+                           "pytransform3d's band 0 < |n.z| < 1e-7 (there the returned point leaves the circle plane)",
+    "other 26 functions": "no theorem in this vertical: the line/plane family is proved by the C10 vertical "
+                          "(D3/Model/DistLine.lean); polygon-pair enumerations (triangle_to_triangle, triangle_to_rectangle, "
+                          "rectangle_to_rectangle, rectangle_to_box, line/segment_to_rectangle, line/segment_to_box), the "
+                          "iterative ones (line_to_circle, line_segment_to_circle, disk_to_disk, point_to_ellipsoid) and "
+                          "plane_to_{ellipsoid,cylinder} are covered by the certificate search only",
 }
 ASSUMPTIONS = ["exact-real semantics of the model (float rounding not modelled)",
                "pytransform3d.rotations.perpendicular_to_vector is modelled from its source (threshold 1e-7), not regenerated"]
@@ -111,6 +115,7 @@ class Prim:
     def __init__(self, kind, **kw):
         self.kind = kind
         self.p = kw
+        self.frame = None       # (R, half sizes) when built by make_prim: used to place lattice points
 
     # ---- arguments for the library call
     def args(self):
@@ -882,6 +887,21 @@ def pose(R, t):
 
 def make_prim(kind, R, c, sizes):
     """primitive of the given kind with frame R (columns = local axes), centre c, sizes (3 positive numbers)"""
+    P = _make_prim(kind, R, c, sizes)
+    if kind in ("rectangle",):
+        P.frame = (R, A([0.5 * sizes[0], 0.5 * sizes[1], 1.0]))
+    elif kind in ("circle", "disk"):
+        P.frame = (R, A([sizes[0], sizes[0], 1.0]))
+    elif kind == "box":
+        P.frame = (R, 0.5 * A(sizes))
+    elif kind == "ellipsoid":
+        P.frame = (R, A(sizes))
+    elif kind == "cylinder":
+        P.frame = (R, A([sizes[0], sizes[0], 0.5 * sizes[1]]))
+    return P
+
+
+def _make_prim(kind, R, c, sizes):
     if kind == "point":
         return Prim("point", x=A(c))
     if kind == "line":
@@ -935,8 +955,51 @@ def gen_prim(kind, rng, stream, c):
     return make_prim(kind, R, c, sizes)
 
 
+def special_point(rng, P2):
+    """a point placed on the lattice of the primitive's own frame: on faces / edges / corners / axis / centre,
+    inside and outside (where the branch decisions of the point_to_X functions are ties)"""
+    if P2.kind == "triangle":
+        a, b, c = P2.p["v"]
+        s = rng.choice([-0.5, 0.0, 0.0, 0.25, 0.5, 1.0, 1.5])
+        u = rng.choice([-0.5, 0.0, 0.0, 0.25, 0.5, 1.0, 1.5])
+        h = rng.choice([0.0, 0.0, 0.5, -1.0])
+        return a + s * (b - a) + u * (c - a) + h * np.cross(b - a, c - a)
+    if P2.frame is None:
+        return None
+    R, h = P2.frame
+    al = A([rng.choice([0.0, 0.0, 0.5, -0.5, 1.0, -1.0, 1.5, -2.0]) for _ in range(3)])
+    return P2.center() + R.dot(al * h)
+
+
 def gen_pair(fn, rng, stream):
     k1, k2 = FUNCS[fn]
+    if stream == "L" and k1 == "point" and rng.random() < 0.5:
+        P2 = gen_prim(k2, rng, "L", lat_vec(rng))
+        x = special_point(rng, P2)
+        if x is not None:
+            return Prim("point", x=x), P2
+    if stream == "L" and k2 == "triangle" and k1 in ("line", "segment") and rng.random() < 0.2:
+        # a triangle with one axis-aligned edge and a line / segment exactly parallel to that edge, beyond it
+        u = np.zeros(3)
+        u[rng.randrange(3)] = rng.choice([-1.0, 1.0])
+        a0 = lat_vec(rng)
+        b0 = a0 + rng.choice([0.5, 1.0, 2.0, 3.0]) * u
+        for _ in range(50):
+            c0 = lat_vec(rng)
+            if nrm(np.cross(b0 - a0, c0 - a0)) / max(nrm(b0 - a0), nrm(c0 - a0), nrm(c0 - b0)) >= 0.2:
+                break
+        else:
+            c0 = a0 + A([u[1], u[2], u[0]])
+        mid = 0.5 * (a0 + b0)
+        x = mid - (c0 - mid) * rng.choice([0.5, 1.0]) + rng.choice([0.0, 0.0, 0.5]) * np.cross(b0 - a0, c0 - a0)
+        order = rng.choice([(0, 1, 2), (2, 0, 1), (1, 2, 0)])      # which edge (AB / BC / CA) is the aligned one
+        v = np.array([a0, b0, c0])[list(np.argsort(order))]
+        T = Prim("triangle", v=v)
+        if k1 == "line":
+            return Prim("line", x=x, d=u.copy()), T
+        h = rng.choice([0.25, 1.0, 4.0])
+        sh = rng.choice([-6.0, -1.0, 0.0, 0.0, 1.0, 6.0])
+        return Prim("segment", s=x + (sh - h) * u, e=x + (sh + h) * u), T
     if stream == "L":
         c1 = lat_vec(rng)
         P1 = gen_prim(k1, rng, "L", c1)
@@ -948,9 +1011,6 @@ def gen_pair(fn, rng, stream):
         else:
             c2 = lat_vec(rng)
         P2 = gen_prim(k2, rng, "L", c2)
-        if rng.random() < 0.3 and k1 != "triangle" and k2 != "triangle":
-            # share the frame: exactly parallel / coplanar placements
-            pass
         return P1, P2
     base = A([rng.uniform(-1, 1) for _ in range(3)]) * (10 ** rng.uniform(-1, 2.5))
     P1 = gen_prim(k1, rng, "G", base)
@@ -995,7 +1055,7 @@ def in_band(fn, P1, P2):
             s = nrm(np.cross(u, v))
             if 0 < c < BAND or 0 < s < BAND:
                 return True
-    if P1.kind == "point" and P2.kind in ("circle", "disk", "cylinder"):
+    if P1.kind == "point" and P2.kind == "circle":
         # direction of (point - centre) against the plane / axis
         d = P1.p["x"] - P2.center()
         L = nrm(d)
@@ -1018,21 +1078,93 @@ def well_formed(P):
 # =====================================================================================
 # oracle
 # =====================================================================================
-def classify(fn, P1, P2, d, info):
-    """known-finding classification of a certified violation (narrow: function + input class)"""
+def line_circle_class(lp, ld, c, r, n):
+    """which case of `_circle.line_to_circle` an input reaches (decisions recomputed from the input)"""
+    lp = lp - c
+    dxn, pxn = np.cross(ld, n), np.cross(lp, n)
+    m0 = float(np.dot(dxn, dxn))
+    if not m0 > 0.0:
+        return "parallel"
+    lam = -float(np.dot(dxn, pxn)) / m0
+    pxn = pxn + lam * dxn
+    b1sq = float(np.dot(pxn, pxn))
+    if not b1sq > 0.0:
+        return "b1-zero"
+    return "two-roots" if r * m0 > math.sqrt(b1sq) else "one-root"
+
+
+def disk_alternating(P1, P2, eps=1e-8):
+    """value of the library's alternating projection (step (2) of disk_to_disk: same start, 20 rounds, stop as
+    soon as the decrease is below epsilon), recomputed with the reference point-to-disk projection"""
+    c1, r1, n1 = P1.p["c"], P1.p["r"], P1.p["n"]
+    c2, r2, n2 = P2.p["c"], P2.p["r"], P2.p["n"]
+    y = cp_disk(c1, c2, r2, n2)
+    prev = nrm(c2 - c1)
+    x = c1
+    for _ in range(20):
+        x = cp_disk(y, c1, r1, n1)
+        y = cp_disk(x, c2, r2, n2)
+        dist = nrm(y - x)
+        if prev - dist < eps:
+            break
+        prev = dist
+    return nrm(y - x)
+
+
+def unnormalised_axis_point(C, p2, L):
+    """the returned circle point is centre + r * perpendicular_to_vector(normal) with a perpendicular vector that
+    is not of unit length (line_to_circle's on-axis branches forget to normalise it)"""
+    import pytransform3d.rotations as pr
+    u = pr.perpendicular_to_vector(C.p["n"])
+    return abs(nrm(u) - 1.0) > 1e-9 and nrm(p2 - (C.p["c"] + C.p["r"] * u)) <= 1e-9 * L
+
+
+def in_axis_band(x, C):
+    dd = x - C.p["c"]
+    rho = nrm(dd - np.dot(dd, C.p["n"]) * C.p["n"])
+    return 0 < rho * rho < 1e-6
+
+
+def classify(fn, P1, P2, res, info):
+    """known-finding classification of a certified violation (narrow: function + input class / mechanism);
+    None = not a recorded defect"""
+    d = res[0]
+    if fn in ("line_to_circle", "line_segment_to_circle") and unnormalised_axis_point(P2, res[2], info["L"]):
+        return "F-C11-line-circle-axis"
     if fn == "disk_to_disk":
         s = nrm(np.cross(P1.p["n"], P2.p["n"]))
         if s < 1e-9:
             off = abs(float(np.dot(P2.p["c"] - P1.p["c"], P1.p["n"])))
             return "F-C11-disk-coplanar" if off < 1e-9 else "F-C11-disk-parallel"
-    if fn in ("point_to_circle", "line_segment_to_circle"):
-        # point (segment end point) within sqrt(epsilon)=1e-3 of the circle axis but not on it
-        pts = [P1.p["x"]] if fn == "point_to_circle" else [P1.p["s"], P1.p["e"]]
-        for x in pts:
-            dd = x - P2.p["c"]
-            rho = nrm(dd - np.dot(dd, P2.p["n"]) * P2.p["n"])
-            if 0 < rho < 1e-3:
+        # alternating projections between two compact convex sets decrease monotonically to the minimum
+        # distance; a too large value that equals the early-stopped iterate is the stop rule's doing
+        if info["kind"] == "closer-pair" and abs(disk_alternating(P1, P2) - d) <= 1e-9 * info["L"]:
+            return "F-C11-disk-early-stop"
+        return None
+    if fn == "point_to_circle":
+        return "F-C11-circle-axis-band" if in_axis_band(P1.p["x"], P2) else None
+    if fn == "line_to_circle":
+        if info["kind"] == "closer-pair" and line_circle_class(P1.p["x"], P1.p["d"], P2.p["c"], P2.p["r"], P2.p["n"]) == "two-roots":
+            return "F-C11-line-circle-shat"
+        return None
+    if fn == "line_segment_to_circle" and info["kind"] == "closer-pair":
+        import distance3d.distance._circle as C
+        s, e = P1.p["s"], P1.p["e"]
+        on_line = C._line_segment_to_circle(s.copy(), e.copy(), P2.p["c"].copy(), float(P2.p["r"]), P2.p["n"].copy())[3]
+        if not on_line:
+            # clamped to an end point: either the end point sits in point_to_circle's band, or the clamp itself
+            # is the defect (non-convex target)
+            dist_s = nrm(s - cp_circle(s, P2.p["c"], P2.p["r"], P2.p["n"]))
+            dist_e = nrm(e - cp_circle(e, P2.p["c"], P2.p["r"], P2.p["n"]))
+            if min(abs(d - dist_s), abs(d - dist_e)) > info["tol"] and (in_axis_band(s, P2) or in_axis_band(e, P2)):
                 return "F-C11-circle-axis-band"
+            return "F-C11-segcircle-clamp"
+        # interior closest point: the value is line_to_circle's
+        if d - info["closer_distance"] <= TOL_LINE_CIRCLE * info["L"]:
+            return "F-C11-segcircle-bisection"      # within the accuracy the property grants line_to_circle only
+        if line_circle_class(s, unit(e - s), P2.p["c"], P2.p["r"], P2.p["n"]) == "two-roots":
+            return "F-C11-line-circle-shat"
+        return None
     return None
 
 
@@ -1071,7 +1203,7 @@ def run_case(ctx, fn, P1, P2, stream, findings_seen=None):
     ctx.count("search:" + stream, key=key,
               sample={"fn": fn, "stream": stream, "p1": P1.to_json(), "p2": P2.to_json()})
     if bad is not None:
-        fid = classify(fn, P1, P2, res[0], bad)
+        fid = classify(fn, P1, P2, res, bad)
         ctx.fail(fn, {"fn": fn, "p1": P1.to_json(), "p2": P2.to_json()}, bad,
                  "no pair of points closer than d - %g*L and d not below a certified lower bound" % tol_of(fn),
                  "reference closest pair (feature enumeration / dense search), membership re-verified; "
@@ -1082,10 +1214,24 @@ def run_case(ctx, fn, P1, P2, stream, findings_seen=None):
 # =====================================================================================
 # hand-written corpus: suspected defects and classic degenerate placements
 # =====================================================================================
+def known_witnesses():
+    """witnesses of the recorded findings (replayed first on every run)"""
+    import json
+    import os
+    path = os.path.join(core.VERIF, "known_findings.d", "C11.json")
+    out = []
+    if os.path.exists(path):
+        for k in json.load(open(path)):
+            w = k.get("witness") or {}
+            if "fn" in w and "p1" in w and "p2" in w:
+                out.append((w["fn"], Prim.from_json(w["p1"]), Prim.from_json(w["p2"])))
+    return out
+
+
 def corpus():
     z = A([0, 0, 1.0])
     I = np.eye(3)
-    out = []
+    out = known_witnesses()
     out.append(("disk_to_disk", Prim("disk", c=A([0, 0, 0.0]), r=1.0, n=z), Prim("disk", c=A([1.0, 0, 0]), r=1.0, n=z)))
     out.append(("disk_to_disk", Prim("disk", c=A([0, 0, 0.1]), r=1.0, n=z), Prim("disk", c=A([0, 0, -0.1]), r=1.0, n=z)))
     out.append(("point_to_circle", Prim("point", x=A([5e-4, 0, 0])), Prim("circle", c=A([0, 0, 0.0]), r=1.0, n=z)))
@@ -1176,7 +1322,7 @@ def nonunique(fn, br):
 
 
 def correspondence(ctx):
-    n_per = ctx.budget(160, 4000)
+    n_per = ctx.budget(500, 6000)
     cases = []
     for fn in MODELLED:
         for i in range(n_per):
@@ -1224,23 +1370,25 @@ def correspondence(ctx):
             continue
         y = A(impl_vector(fn, res))
         scale = max(1.0, float(np.max(np.abs(A(model_args(fn, P1, P2))))))
-        tol = 1e-9 * scale
+        tol = (1e-12 if stream == "L" else 1e-9) * scale
         ok = False
         used = None
-        for (m, name) in ((mF, "F"), (mQ, "Q")):
+        order = ((mQ, "Q"), (mF, "F")) if stream == "L" else ((mF, "F"), (mQ, "Q"))
+        for (m, name) in order:
             if m[0] != "ok":
                 continue
             mv = A(m[2][:len(y)])
             if len(mv) != len(y):
                 continue
-            if nonunique(fn, m[1]):
-                good = abs(mv[0] - y[0]) <= tol
-            else:
-                good = float(np.max(np.abs(mv - y))) <= tol
+            good = float(np.max(np.abs(mv - y))) <= tol
+            if good:
+                env = max(env, float(np.max(np.abs(mv - y))) / scale)
+            elif nonunique(fn, m[1]) and abs(mv[0] - y[0]) <= tol:
+                # several closest pairs exist (parallel / on-axis placements): only d is determined
+                good = True
+                ctx.extra["nonunique_distance_only"] = ctx.extra.get("nonunique_distance_only", 0) + 1
             if good:
                 ok, used = True, name
-                if not nonunique(fn, m[1]):
-                    env = max(env, float(np.max(np.abs(mv - y))) / scale)
                 break
         if mQ[0] == "ok":
             ctx.branch(fn, mQ[1])
@@ -1249,8 +1397,19 @@ def correspondence(ctx):
         if not ok:
             ctx.broke("correspondence", fn,
                       "implementation %s vs model F %s / Q %s (tolerance %g)" % (list(y), mF, mQ, tol), seed)
-        elif used == "Q":
+        elif used == "Q" and stream != "L":
             ctx.extra["arbitrated_by_exact"] = ctx.extra.get("arbitrated_by_exact", 0) + 1
+        elif used == "F" and stream == "L":
+            ctx.extra["lattice_matched_float_only"] = ctx.extra.get("lattice_matched_float_only", 0) + 1
+    expected = {"point_to_triangle": range(7), "point_to_rectangle": range(9), "point_to_box": range(27),
+                "point_to_disk": range(3), "point_to_cylinder": range(9), "point_to_circle": range(2),
+                # ids 19 / 24 (edge AB / BC wins through the parallel branch) need a strict improvement over an
+                # earlier edge that shares a vertex with it, which cannot happen in exact arithmetic
+                "line_to_triangle": [0, 13, 14, 18, 23],
+                "line_segment_to_triangle": [0, 13, 14, 18, 23] + list(range(100, 107)) + list(range(200, 207))}
+    ctx.extra["unreached_branches"] = {fn: [b for b in ids if str(b) not in ctx.branches.get(fn, {})]
+                                       for fn, ids in expected.items()
+                                       if any(str(b) not in ctx.branches.get(fn, {}) for b in ids)}
     ctx.extra["float_vs_exact_branch_flips"] = flips
     ctx.extra["rounding_envelope_rel"] = env
 
@@ -1260,7 +1419,7 @@ def correspondence(ctx):
 # =====================================================================================
 def search(ctx):
     boost = 3 if ctx.extra.get("search_boost") else 1
-    base = ctx.budget(60, 2500) * boost
+    base = ctx.budget(300, 6000) * boost
     for fn, P1, P2 in corpus():
         run_case(ctx, fn, P1, P2, "corpus")
     for fn in FUNCS:
@@ -1278,6 +1437,49 @@ def search(ctx):
                 continue
             run_case(ctx, fn, P1, P2, stream)
             done += 1
+    if ctx.thorough:
+        search_jit(ctx, 150)
+
+
+def impl_run(case):
+    """second engine (JIT) entry point used by core.run_engine: case = (fn, p1 json, p2 json)"""
+    fn, j1, j2 = case
+    d, a, b = call_impl(fn, Prim.from_json(j1), Prim.from_json(j2))
+    return {"ok": True, "d": d, "p1": a.tolist(), "p2": b.tolist()}
+
+
+def search_jit(ctx, n_per):
+    """thorough tier: the same oracle on results computed with the JIT on (fresh numba cache)"""
+    cases, prims = [], []
+    for fn in FUNCS:
+        done = 0
+        while done < n_per:
+            stream = "L" if done % 2 == 0 else "G"
+            P1, P2 = gen_pair(fn, ctx.rng, stream)
+            if not (well_formed(P1) and well_formed(P2)) or in_band(fn, P1, P2):
+                continue
+            cases.append((fn, P1.to_json(), P2.to_json()))
+            prims.append((fn, P1, P2, stream))
+            done += 1
+    res = core.run_engine("c11", cases, jit=True)
+    if isinstance(res, dict):
+        ctx.notes.append("JIT engine did not run: %s" % str(res.get("engine_error"))[-300:])
+        return
+    nerr = 0
+    for (fn, P1, P2, stream), r in zip(prims, res):
+        ctx.count("search-jit:" + stream)
+        if not r.get("ok"):
+            nerr += 1
+            continue
+        out = (r["d"], A(r["p1"]), A(r["p2"]))
+        bad = oracle(fn, P1, P2, out)
+        if bad is not None:
+            ctx.fail(fn, {"fn": fn, "p1": P1.to_json(), "p2": P2.to_json()}, bad,
+                     "no pair of points closer than d - %g*L and d not below a certified lower bound" % tol_of(fn),
+                     "reference closest pair, membership re-verified (JIT engine)",
+                     finding=classify(fn, P1, P2, out, bad), engine="jit")
+    ctx.extra["jit_engine_cases"] = len(res)
+    ctx.extra["jit_engine_raised"] = nerr
 
 
 def replay(ctx, payload):
